@@ -1664,7 +1664,7 @@ type sra struct {
 func (op *sra) Run(ctx *Context, _ map[string]int32, pc int32, memory []int8, sequenceID int32) (Execution, error) {
 	rs1 := registerRead(ctx, op.forward, op.rs1, sequenceID)
 	rs2 := registerRead(ctx, op.forward, op.rs2, sequenceID)
-	register, value := IsRegisterChange(op.rd, rs1>>rs2)
+	register, value := IsRegisterChange(op.rd, rs1>>(uint32(rs2)&31))
 	return Execution{
 		RegisterChange: true,
 		Register:       register,
@@ -1705,7 +1705,7 @@ type srai struct {
 
 func (op *srai) Run(ctx *Context, _ map[string]int32, pc int32, memory []int8, sequenceID int32) (Execution, error) {
 	rs := registerRead(ctx, op.forward, op.rs, sequenceID)
-	register, value := IsRegisterChange(op.rd, rs>>op.imm)
+	register, value := IsRegisterChange(op.rd, rs>>(uint32(op.imm)&31))
 	return Execution{
 		RegisterChange: true,
 		Register:       register,
